@@ -28,6 +28,9 @@ RULE = (
     "(MG94: any subset of kappa/alpha/beta) through Parameter.tensor = ... or in-place + fire_parameter_changed, "
     "sometimes several updates before the next evaluation, re-checking clauses (a)-(e) against the oracle at the "
     "current values after the updates (non-trivial there = an evaluation after a real change of value at a non-trivial state). "
+    "'jc_dtypes' draws GeneralJC69 with 2..64 states (and JC69) with the library's default dtype float32 or float64 while the model is "
+    "built and evaluated, branch lengths in float64 or float32, shapes scalar, [B], [B,K], [S,B,K], [S1,S2,B,K] (labels: default dtype, "
+    "t dtype, n power of two or not). "
     "'codes' enumerates all 15 genetic codes at two parameter points; 'unit' repeats the repository's own "
     "MG94 assertion for every code; 'single_matrix' is the one-matrix shape of the non-symmetric model."
 )
@@ -59,6 +62,9 @@ ASSUMPTIONS = [
     "histories update parameters only through the public interface and always notify (assignment to Parameter.tensor, or "
     "in-place copy followed by fire_parameter_changed); updates keep the shape of the parameter; an in-place change without "
     "notification is not generated (staleness would be legitimate)",
+    "jc_dtypes: tolerances are relative to the precision of the branch lengths' dtype (float64: 1e-10 on P, 1e-12 on P(0)=I; float32: "
+    "64 eps32 = 7.6e-6 and 8 eps32); q() and frequencies are compared at the precision of their own dtype (they follow the default dtype); the "
+    "dtype of the result is not asserted; every other sub-check runs with the default dtype float64 set before torchtree is imported",
     "normalize=false of the non-symmetric model is not generated (the property demands the normalised matrix)",
 ]
 
@@ -245,6 +251,24 @@ def single_matrix_cases(draw):
     c["B"], c["K"] = 1, 1
     c["t"] = [draw(st.one_of(logu(1e-8, 100.0), logu(1e-3, 1.0)))]
     c["tfac"] = [1.0]
+    c["s"] = [draw(logu(1e-6, 50.0)), draw(logu(1e-6, 50.0))]
+    return c
+
+
+@st.composite
+def jc_dtype_cases(draw):
+    """the equal-rates models (GeneralJC69 with 2..64 states, JC69) under both library default
+    dtypes and both branch-length dtypes, unbatched and batched branch lengths"""
+    model = draw(st.sampled_from(["GeneralJC69"] * 7 + ["JC69"]))
+    c = {"model": model, "jc": True}
+    if model == "GeneralJC69":
+        c["k"] = draw(st.one_of(st.integers(2, 64), st.integers(2, 64), st.sampled_from([2, 3, 5, 6, 7, 20, 21, 61, 63, 64])))
+    c["default"] = draw(st.sampled_from(["float32", "float32", "float64"]))
+    c["tdtype"] = draw(st.sampled_from(["float64", "float64", "float32"]))
+    nd = draw(st.sampled_from([0, 1, 2, 2, 2, 3, 4]))  # scalar, [B], [B,K], [S,B,K], [S1,S2,B,K]
+    big = c.get("k", 4) > 24
+    c["tdims"] = [draw(st.integers(1, 2 if big else 3)) for _ in range(nd)]
+    c["t"] = [draw(_tval()) for _ in range(_n(c["tdims"]))]
     c["s"] = [draw(logu(1e-6, 50.0)), draw(logu(1e-6, 50.0))]
     return c
 
@@ -865,6 +889,96 @@ def _classes(code):
     return _CLS[code]
 
 
+EPS32 = 1.1920928955078125e-07
+_TDT = {"float32": torch.float32, "float64": torch.float64}
+
+
+def body_jc(c):
+    """GeneralJC69 / JC69 with the library in either default dtype and branch lengths in either
+    dtype: clauses (a)-(e); tolerances are stated relative to the precision of the branch lengths'
+    dtype (float64: the property's 1e-10 / 1e-12; float32: 64 eps32 = 7.6e-6 / 8 eps32)"""
+    model = c["model"]
+    k = c.get("k", 4)
+    tdt = _TDT[c["tdtype"]]
+    f64t = c["tdtype"] == "float64"
+    tol = TOL_P if f64t else 64 * EPS32
+    tol0 = 1e-12 if f64t else 8 * EPS32
+    shape = tuple(c["tdims"])
+    pow2 = (k & (k - 1)) == 0
+    tags = {"model": model, "states": k, "default_dtype": c["default"], "t_dtype": c["tdtype"], "power_of_two": pow2, "tdims": len(shape)}
+    tvals32 = np.asarray(c["t"], dtype=np.float64 if f64t else np.float32)
+    tvals = tvals32.astype(np.float64).reshape(shape)  # exactly the numbers handed to p_t
+    nontrivial = bool(np.any(tvals > 0))
+    key = (model, k, c["default"], c["tdtype"], c["tdims"], _sig(c["t"]))
+    res = Res(nontrivial=nontrivial, key=key,
+              labels=(model, "default:" + c["default"], "t:" + c["tdtype"], "tdims:%d" % len(shape), "n-power-of-two" if pow2 else "n-not-power-of-two",
+                      "nontrivial" if nontrivial else "trivial:all-t-zero"), tags=tags)
+    tt.load_all()
+    old = torch.get_default_dtype()
+    try:
+        torch.set_default_dtype(_TDT[c["default"]])
+        m, _ = tt.build({"id": "m", "type": "JC69"} if model == "JC69" else {"id": "m", "type": "GeneralJC69", "state_count": k})
+        tin = torch.tensor(tvals32.reshape(shape), dtype=tdt)
+        P = arr(m.p_t(tin))
+        s1, s2 = (float(x) for x in np.asarray(c["s"], dtype=np.float64 if f64t else np.float32))
+        tri = torch.tensor([[s1], [s2], [s1 + s2]], dtype=tdt)
+        s3 = float(tri[2, 0])
+        Ptri = arr(m.p_t(tri))
+        Qm = arr(m.q())
+        qf64 = m.q().dtype == torch.float64
+        pim = arr(m.frequencies)
+        pf64 = m.frequencies.dtype == torch.float64
+    finally:
+        torch.set_default_dtype(old)
+    # ---- (a), (b): rate matrix and frequencies, to the precision of their own dtype
+    Qdoc, pidoc = rm.q_unnormalised("GeneralJC69", state_count=k)
+    Qn = rm.normalise(Qdoc, pidoc)
+    if Qm.shape != (k, k) or pim.shape != (k,):
+        return res.fail("q_shape", {"q": list(Qm.shape), "frequencies": list(pim.shape), "states": k})
+    if _relerr(pim, pidoc) > (1e-14 if pf64 else 2 * EPS32):
+        return res.fail("frequencies", {"frequencies": _mat(pim), "expected": 1.0 / k})
+    tq = TOL_Q if qf64 else 8 * EPS32
+    off = ~np.eye(k, dtype=bool)
+    if np.any(Qm[off] < 0) or np.max(np.abs(Qm.sum(axis=1)) / np.abs(np.diagonal(Qm))) > (1e-12 if qf64 else k * EPS32):
+        return res.fail("q_rowsum", {"q": _mat(Qm)})
+    if _relerr(rm.normalise(Qm, pidoc), Qn) > tq:
+        return res.fail("q_documented", {"q": _mat(Qm), "expected_normalised": _mat(Qn)})
+    # ---- (c)-(e) on every matrix
+    if tuple(P.shape) != shape + (k, k):
+        return res.fail("p_shape", {"p": list(P.shape), "expected": list(shape + (k, k))})
+    if Ptri.shape != (3, 1, k, k):
+        return res.fail("p_shape", {"p": list(Ptri.shape), "what": "semigroup triple"})
+    if not (np.all(np.isfinite(P)) and np.all(np.isfinite(Ptri))):
+        return res.fail("nonfinite_p", {})
+    mats = [(P[idx], float(tvals[idx]), None) for idx in np.ndindex(*shape)] + [(Ptri[j, 0], tv, "semigroup triple") for j, tv in enumerate((s1, s2, s3))]
+    cache = {}
+    for Pm, t, what in mats:
+        d = {"t": t, "states": k, "tolerance": tol}
+        if what:
+            d["what"] = what
+        if t not in cache:
+            cache[t] = rm.p_t(Qn, t)
+        ref = cache[t]
+        err = maxabs(Pm, ref)
+        if not err <= tol:
+            return res.fail("mismatch", dict(d, err=err, p_diag=float(Pm[0, 0]), expected_diag=float(ref[0, 0]), p_off=float(Pm[0, 1]), expected_off=float(ref[0, 1])))
+        rs = float(np.max(np.abs(Pm.sum(axis=1) - 1.0)))
+        if rs > tol or np.min(Pm) < -tol:
+            return res.fail("not_stochastic", dict(d, worst_rowsum_error=rs, min=float(np.min(Pm))))
+        if t == 0.0 and maxabs(Pm, np.eye(k)) > tol0:
+            return res.fail("p0_not_identity", dict(d, err=maxabs(Pm, np.eye(k)), tolerance=tol0))
+        for pi_ in (pidoc, pim):
+            if np.max(np.abs(pi_ @ Pm - pi_)) > tol:
+                return res.fail("not_stationary", dict(d, err=float(np.max(np.abs(pi_ @ Pm - pi_)))))
+        F = pidoc[:, None] * Pm
+        if np.max(np.abs(F - F.T)) > tol:
+            return res.fail("detailed_balance", dict(d, err=float(np.max(np.abs(F - F.T)))))
+    e3 = maxabs(Ptri[0, 0] @ Ptri[1, 0], Ptri[2, 0])
+    if not e3 <= 10 * tol:
+        return res.fail("semigroup", {"s": s1, "u": s2, "err": e3, "tolerance": 10 * tol, "states": k})
+    return res
+
+
 def body_unit(c):
     """the repository's own assertion on MG94 (test_MG94), for every genetic code: with
     kappa = alpha = beta = 1 and uniform frequencies every off-diagonal rate equals 1/n"""
@@ -970,6 +1084,7 @@ def subchecks(tier):
         Sub("single_matrix", body, strategy=single_matrix_cases, quick=160, thorough=3000, pretags=_pretags),
         Sub("empirical", body, strategy=empirical_cases, quick=80, thorough=1200, pretags=_pretags),
         Sub("codon", body, strategy=codon_cases, quick=240, thorough=3000, pretags=_pretags),
+        Sub("jc_dtypes", body_jc, strategy=jc_dtype_cases, quick=500, thorough=10000, pretags=_pretags),
         Sub("history", body_history, strategy=history_cases, quick=400, thorough=8000, pretags=_pretags),
         Sub("codes", body, enumerate=codes_enum, exhaustive=True, pretags=_pretags),
         Sub("unit", body, enumerate=unit_enum, exhaustive=True, pretags=_pretags),
